@@ -217,3 +217,100 @@ class SymStateVector(np.ndarray, ADT):
 
 def _name(f):
     return f if isinstance(f, str) else getattr(f, "name", f)
+
+
+class SeqView(ADT):
+    """A 1-D sequence of symbolic length over a z3 array: (array, offset, length).  Models numpy /
+    list indexing and basic slicing with non-negative bounds:  v[i] -> A[off+i] with the safety
+    obligation 0 <= i < len;  v[a:b] -> view (off+a, b-a) with 0 <= a <= b <= len;  len(v)."""
+
+    def __init__(self, arr, off, length, world_log=None, sorted_strict=False, name="seq"):
+        self.arr, self.off, self.length = arr, off, length
+        self.log = world_log if world_log is not None else []
+        self.sorted_strict = sorted_strict
+        self.name = name
+
+    @staticmethod
+    def fresh(name, length, sorted_strict=False, sort="real"):
+        import z3
+        arr = z3.Array(name, z3.IntSort(), z3.RealSort() if sort == "real" else z3.IntSort())
+        return SeqView(arr, 0, length, [], sorted_strict, name)
+
+    def _int(self, i):
+        if isinstance(i, sym.SInt):
+            return i
+        if isinstance(i, (int, np.integer)):
+            return int(i)
+        raise sym.EngineLimit(f"sequence index of type {type(i)}")
+
+    def at(self, i):
+        """element without a bounds obligation (for specifications)"""
+        import z3
+        e = z3.Select(self.arr, sym.lift(self.off + i)[0])
+        return sym.wrap(e)
+
+    def __getitem__(self, key):
+        import z3
+        run = sym.cur()
+        if isinstance(key, slice):
+            if key.step not in (None, 1):
+                raise sym.EngineLimit("stepped slice of a symbolic sequence")
+            a = 0 if key.start is None else self._int(key.start)
+            b = self.length if key.stop is None else self._int(key.stop)
+            # python clamps slice bounds beyond the end; negative bounds would silently count from the end, which
+            # no caller here intends: non-negativity is a safety obligation
+            run.safety("slice", sym.lift_bool(sym.And(a >= 0, b >= 0)))
+            if key.stop is not None:
+                b = sym.ite(b <= self.length, b, self.length) if not (isinstance(b, int) and isinstance(self.length, int)) else min(b, self.length)
+            if key.start is not None:
+                a = sym.ite(a <= b, a, b) if not (isinstance(a, int) and isinstance(b, int)) else min(a, b)
+            v = SeqView(self.arr, self.off + a, b - a, self.log, self.sorted_strict, self.name)
+            self.log.append(v)
+            return v
+        i = self._int(key)
+        if isinstance(i, int) and i < 0:
+            i = self.length + i
+        run.safety("index", sym.lift_bool(sym.And(i >= 0, i < self.length)))
+        return self.at(i)
+
+    def concrete_length(self):
+        """the length, if the path facts determine it (proved), else None"""
+        import z3
+        run = sym.cur()
+        L = sym.lift(self.length)[0]
+        n = sym.num_of(z3.simplify(L))
+        if n is not None:
+            return int(n)
+        s = z3.Solver()
+        s.set("timeout", 3000)
+        hyps = run.context(L == 0)
+        s.add(*hyps)
+        if s.check() != z3.sat:
+            return None
+        v = s.model().eval(L, model_completion=True)
+        if not z3.is_int_value(v):
+            return None
+        k = v.as_long()
+        s.add(L != k)
+        return k if s.check() == z3.unsat else None
+
+    def __array__(self, dtype=None, copy=None):
+        n = self.concrete_length()
+        if n is None:
+            raise sym.EngineLimit("numpy conversion of a sequence whose length is not determined by the path")
+        out = np.empty(n, dtype=object)
+        for i in range(n):
+            out[i] = self.at(i)
+        if self.sorted_strict:
+            run = sym.cur()
+            for i in range(n - 1):
+                run.add_fact("pre", "sorted.instance", sym.lift_bool(out[i] < out[i + 1]))
+        return out
+
+    def __iter__(self):
+        return iter(self.__array__())
+
+    def __pv_havoc__(self, name):
+        run = sym.cur()
+        v = SeqView(self.arr, sym.SInt(run.fresh(f"h_{name}_off", "int")), sym.SInt(run.fresh(f"h_{name}_len", "int")), self.log, self.sorted_strict, self.name)
+        return v
